@@ -106,6 +106,11 @@ func (l *OpenFgaDslListener) ExitModuleHeader(ctx *parser.ModuleHeaderContext) {
 		l.moduleName = ctx.GetModuleName().GetText()
 		l.typeDefExtensions = map[string]*openfgav1.TypeDefinition{}
 	}
+
+	if l.typeDefExtensions == nil {
+		// the module name is missing (a syntax error is reported): later 'extend type' must still find a map
+		l.typeDefExtensions = map[string]*openfgav1.TypeDefinition{}
+	}
 }
 
 func (l *OpenFgaDslListener) ExitModelHeader(ctx *parser.ModelHeaderContext) {
